@@ -15,7 +15,7 @@ fn count_needed_vkeys(tx_builder: &TransactionBuilder) -> usize {
     input_hashes.extend_move(Ed25519KeyHashes::from(&tx_builder.collateral));
     input_hashes.extend_move(tx_builder.required_signers.clone());
     if let Some(mint_builder) = &tx_builder.mint {
-        input_hashes.extend_move(Ed25519KeyHashes::from(&mint_builder.get_native_scripts()));
+        input_hashes.extend_move(mint_builder.get_required_signers());
     }
     if let Some(withdrawals_builder) = &tx_builder.withdrawals {
         input_hashes.extend_move(withdrawals_builder.get_required_signers());
